@@ -168,6 +168,10 @@ func runC19(c *fw.C) {
 		rt := root
 		rt.NodeFormat = "bogus-format"
 		try("format_unknown", `NodeFormat="bogus-format"`, true, rt, e)
+		// the same for the root of an empty version (there is no top node to stumble over)
+		empty := *mast.NewRoot(kinds.Opts(cfg.BF, cfg.Format))
+		empty.NodeFormat = "bogus-format"
+		try("format_unknown_empty_root", `NodeFormat="bogus-format" on an empty root`, true, empty, e)
 		other := ref.V1
 		if cfg.Format == ref.V1 {
 			other = ref.Binary
